@@ -347,8 +347,8 @@ func (sp *Specs) loadFile(path string, commentOnly bool) error {
 				return fail(fmt.Errorf("bad at clause"))
 			}
 			hs := strings.SplitN(body, " ", 2)
-			if len(hs) < 2 || (hs[0] != "assert" && hs[0] != "assume") {
-				return fail(fmt.Errorf("expected assert/assume"))
+			if len(hs) < 2 || (hs[0] != "assert" && hs[0] != "assume" && hs[0] != "cut") {
+				return fail(fmt.Errorf("expected assert/assume/cut"))
 			}
 			if hs[0] == "assume" && !cur.Extern {
 				return fail(fmt.Errorf("assume is only allowed in extern blocks"))
